@@ -471,7 +471,7 @@ func prefixLen(w *faults.Writer) int {
 
 func c08Opts() gen.Opts {
 	o := gen.DefaultOpts()
-	o.Directives = []string{"|vfail", "|vq"}
+	o.Directives = []string{"|vfail", "|vq", "|vwrap"}
 	o.Funcs = []string{"vfail"}
 	o.ListFuncs = []string{"vpush"}
 	return o
@@ -504,7 +504,7 @@ func c08History(r *simrt.RNG, gc *gen.Case, maxLen int) *c08Hist {
 		catKind = []int{0, 1, 2, faults.KindPO, faults.KindPO}[r.Intn(5)]
 	}
 	alternate := r.Intn(3) == 0
-	altCats := [2]int{[]int{-1, 0, 1}[r.Intn(3)], []int{1, faults.KindPO, faults.KindPO}[r.Intn(3)]}
+	altCats := [2]int{[]int{-1, 0, 1, 2}[r.Intn(4)], []int{1, 0, faults.KindPO, faults.KindPO}[r.Intn(4)]} // (2 = a catalogue that lacks a third of the messages)
 	for i := 0; i < n; i++ {
 		e := hot[r.Intn(len(hot))]
 		if r.Intn(4) == 0 {
